@@ -236,7 +236,7 @@ func (w *World) monitorQoS2In() {
 		}
 	}
 	if w.bk.nextIn == len(w.scn.Inbound) {
-		for k := range w.store.m {
+		for k := range w.records() {
 			if k&(1<<16) != 0 {
 				w.Violate("C04", "marker-left-behind", "inbound marker %#x still stored although every handshake completed", k)
 			}
